@@ -95,6 +95,7 @@ func init() {
 			{ID: "C15.R6", Title: "in the four bitmap key decoders every path from one bitmap row read to the next passes the `curBit == 0` test whose true branch exits", Covers: "a key longer than every field name (also through multi-byte \\u escapes) ends the match instead of indexing past the bitmap", Min: 8, Run: c15r6},
 			{ID: "C06.R5", Title: "every read at <cursor>+k (index, slice bound, char(p, cursor+k)), k >= 1, in the decoders and in compact.go/indent.go is protected by a dominating `cursor+j >= len` exit or an enclosing/short-circuit `cursor+j < len` test with j >= k, by readAtLeast, or by the NUL-sentinel idiom (the preceding byte was matched against a non-NUL constant)", Covers: "truncated literals and escapes give an error instead of an out-of-range panic or a stray read", Min: 25, Run: c06r5},
 			{ID: "C06.R7", Title: "every write at a moving index into a locally made []byte inside a loop is preceded, in that loop, by a comparison of the index with len/cap of the buffer whose branch grows the buffer or leaves", Covers: "never panics (no write past a scratch buffer when the output expands)", Min: 1, Run: c06r7},
+			{ID: "C09.R1", Title: "stream-mode scanners never use a window pointer, slice or loaded byte after a call that may refill (and reallocate) the window without re-taking it (shared with C09)", Covers: "never panics: no index into a window slice that a refill has replaced", Min: 12, Run: c09r1},
 			{ID: "C06.R6", Title: "no variable is type-asserted in the panicking single-value form to two different interface types within one decoder/encoder function", Covers: "UnmarshalContext/Unmarshal never panic on a destination that implements only one of the unmarshaler interfaces", Min: 2, Run: c06r6},
 			{ID: "C06.R4", Title: "no ssa.Panic instruction of the module (outside init) is in a function CHA-reachable from the decoding/utility entry points", Covers: "no explicit panic on any input", Min: 5, Run: c06r4},
 		},
